@@ -207,6 +207,48 @@ class A(Adapter):
         d["quick"] = False
         return d
 
+    # ---- reach probes ---------------------------------------------------------------------------
+    def events(self, ps, action, s, ts, env, cfg):
+        n_obs = int(env.obs_num_ems)
+        active = np.asarray(s.ems_mask).astype(bool)
+        if ps is None:
+            ev = [f"reset_gen_{cfg.get('gen', 'unknown')}"]
+            if not np.asarray(s.items_mask).astype(bool).all():
+                ev.append("reset_padding_items")
+            if n_obs < len(active):
+                ev.append("reset_obs_num_ems_lt_max_num_ems")
+            return ev
+        i, j = int(action[0]), int(action[1])
+        e = int(self._shown(ps, env)[i])
+        p_active = np.asarray(ps.ems_mask).astype(bool)
+        room = _dims(_space(ps.ems)[e])
+        item = _items(ps.items)[j]
+        if not self.legal(ps, env)[i, j]:
+            ev = ["ended_invalid_action"]
+            if not p_active[e]:
+                ev.append("invalid_inactive_ems_slot")
+            if not bool(np.asarray(ps.items_mask)[j]):
+                ev.append("invalid_padding_item")
+            elif bool(np.asarray(ps.items_placed)[j]):
+                ev.append("invalid_item_already_placed")
+            elif p_active[e] and (item > room).any():
+                ev.append("invalid_item_does_not_fit")
+            return ev
+        n0, n1 = int(p_active.sum()), int(active.sum())
+        ev = ["item_placed", "ems_count_decreased" if n1 < n0 else ("ems_count_increased" if n1 > n0 else "ems_count_unchanged")]
+        flags = {"ems_table_full": active.all(), "more_active_ems_than_observed": n1 > n_obs, "no_ems_left": n1 == 0,
+                 "item_fills_ems_exactly": (item == room).all(), "placed_in_non_largest_slot": i > 0,
+                 "placed_above_floor": int(_space(ps.ems)[e][4]) > int(_space(ps.container)[..., 4].reshape(-1)[0])}
+        ev += [k for k, v in flags.items() if bool(v)]
+        open_left = np.asarray(s.items_mask).astype(bool) & ~np.asarray(s.items_placed).astype(bool)
+        if not open_left.any():
+            ev.append("all_items_placed")
+        elif int(ts.step_type) == 2:
+            ev.append("ended_nothing_fits")
+            if n1 > n_obs:
+                ev.append("ended_nothing_fits_with_hidden_ems")
+        return ev
+
     # ---- C12 -------------------------------------------------------------------------------------
     def observe(self, s, obs, env, cfg):
         n_obs = int(env.obs_num_ems)
